@@ -190,7 +190,7 @@ def build_scripts(ctx, prop, tier):
     return scripts, stats
 
 
-def drive(ctx, scripts, name="trace"):
+def drive(ctx, scripts, name="trace", env=None):
     drv = ctx.go_build("./zzverif/procdrv", "procdrv")
     # cover scripts were generated with SnapLen = 2 in the model, but the code's test recording is 21 frames:
     # the driver reports SnapLen = 20 and the monitors judge with that, the script is just an input sequence.
@@ -200,21 +200,37 @@ def drive(ctx, scripts, name="trace"):
     outp = ctx.path("run", name + ".ndjson")
     import subprocess
     with open(outp, "w") as fo:
-        r = subprocess.run([drv, inp], stdout=fo, stderr=subprocess.PIPE, text=True, timeout=1200)
+        r = subprocess.run([drv, inp], stdout=fo, stderr=subprocess.PIPE, text=True, timeout=1200,
+                           env=dict(os.environ, **(env or {})))
     if r.returncode != 0:
         raise vlib.Infra("procdrv failed rc=%d: %s" % (r.returncode, r.stderr[-2000:]))
     return outp
 
 
-def judge(ctx, trace_path, name="mon"):
-    """Run the TLA+ monitors over the recorded trace.  Returns (viol list[(line, tags)], nevents)."""
-    nev = sum(1 for _ in open(trace_path))
-    r = ctx.tlc(name, "ProcMonTrace", mkcfg(init="TInit", next_="TNext", post="Consumed"), workers=1,
-                files=[(trace_path, "trace.ndjson")], timeout=1800, heap="4g")
-    if "Postcondition Consumed" in r["out"] or r.get("distinct", 0) != nev + 1:
-        raise vlib.Infra("monitor run did not consume the whole trace (%s of %d):\n%s"
-                         % (r.get("distinct"), nev, vlib.tail_err(r["out"])))
-    return vlib.parse_viol(r["out"]), nev
+def judge(ctx, trace_path, name="mon", chunk=80000):
+    """Run the TLA+ monitors over the recorded trace.  Returns (viol list[(line, tags)], nevents).
+    Long traces are judged in pieces cut at script boundaries (a 'cfg' event resets the monitor)."""
+    lines = open(trace_path).read().splitlines()
+    nev = len(lines)
+    pieces, start = [], 0
+    for i, ln in enumerate(lines):
+        if i - start >= chunk and ln.startswith('{"') and '"ev":"cfg"' in ln.replace(" ", ""):
+            pieces.append((start, i)); start = i
+    pieces.append((start, nev))
+    viol = []
+    for pi, (a, b) in enumerate(pieces):
+        tp = trace_path
+        if len(pieces) > 1:
+            tp = "%s.part%d" % (trace_path, pi)
+            with open(tp, "w") as f:
+                f.write("\n".join(lines[a:b]) + "\n")
+        r = ctx.tlc(name if len(pieces) == 1 else "%s_%d" % (name, pi), "ProcMonTrace", mkcfg(init="TInit", next_="TNext", post="Consumed"),
+                    workers=1, files=[(tp, "trace.ndjson")], timeout=1800, heap="6g")
+        if "Postcondition Consumed" in r["out"] or r.get("distinct", 0) != (b - a) + 1:
+            raise vlib.Infra("monitor run did not consume the whole trace (%s of %d):\n%s"
+                             % (r.get("distinct"), b - a, vlib.tail_err(r["out"])))
+        viol += [(ln + a, tags) for (ln, tags) in vlib.parse_viol(r["out"])]
+    return viol, nev
 
 
 def conform(ctx, trace_path, name="conf"):
@@ -291,20 +307,45 @@ def run(ctx, only_scripts=None):
         import fam_e2e
         binp = ctx.go_test_build("./cmd/thermal-recorder", "tr.test")
         e2e_runs = fam_e2e.c17_runs(ctx, binp)
+        nreq = len(e2e_runs)
+        e2e_runs += fam_e2e.c17_reconnect_runs(ctx, binp)
         for v in fam_e2e.judge_c11(ctx, e2e_runs, binp):
             if v["key"].startswith("C11:e2e-"):
                 continue
             v["key"] = v["key"].replace("C11:settings-do-not-shape-files", "C17:end-to-end").replace("C11:", "C17:")
-            violations.append(v)
-        stats["e2e_runs_with_test_recordings"] = len(e2e_runs)
+            if v["key"].startswith("C17:") and v["key"] not in seen:
+                seen.add(v["key"])
+                violations.append(v)
+        stats["e2e_runs_with_test_recordings"] = nreq
+        stats["e2e_runs_with_reconnects"] = len(e2e_runs) - nreq
     if prop == "C12" and only_scripts is None:
         rs_viol, rs_stats = real_sinks(ctx, tier)
         violations += rs_viol
         stats["real_recorders_on_all_sinks"] = rs_stats
+        # the three sinks as handleConn wires them (separate recorder objects): a test recording requested in the
+        # middle of a motion recording, with the continuous recorder on or off, through the unmodified runMain
+        import fam_e2e
+        binp = ctx.go_test_build("./cmd/thermal-recorder", "tr.test")
+        e2e_runs = fam_e2e.c17_runs(ctx, binp)
+        for v in fam_e2e.judge_c11(ctx, e2e_runs, binp):
+            if v["key"].startswith("C11:e2e-"):
+                continue
+            v["key"] = v["key"].replace("C11:settings-do-not-shape-files", "C12:end-to-end").replace("C11:", "C12:")
+            if v["key"].startswith("C12:") and v["key"] not in seen:
+                seen.add(v["key"])
+                violations.append(v)
+        stats["e2e_runs_with_overlapping_test_recordings"] = len(e2e_runs)
+    if prop == "C03" and only_scripts is None:
+        cv, cstats = config_lengths(ctx, tier)
+        violations += [v for v in cv if v["key"] not in seen]
+        stats["config_files_parsed"] = cstats
     raw_stats = {}
     if prop == "C13" and only_scripts is None:
         rv, raw_stats = raw_frames(ctx, tier)
         violations += rv
+        rs_viol, rs_stats = real_sinks(ctx, tier, prop="C13")
+        violations += rs_viol
+        raw_stats["real_recorders_bad_frames_under_storage_failures"] = rs_stats
         import fam_e2e
         binp = ctx.go_test_build("./cmd/thermal-recorder", "tr.test")
         e2e_runs = fam_e2e.c13_runs(ctx, binp)
@@ -312,7 +353,9 @@ def run(ctx, only_scripts=None):
             if v["key"].startswith("C11:e2e-"):
                 continue
             v["key"] = v["key"].replace("C11:settings-do-not-shape-files", "C13:end-to-end").replace("C11:", "C13:")
-            violations.append(v)
+            if v["key"].startswith("C13:") and v["key"] not in seen:
+                seen.add(v["key"])
+                violations.append(v)
         raw_stats["e2e_runs_with_bad_frames"] = len(e2e_runs)
         raw_stats["e2e_bad_frames"] = sum(1 for r in e2e_runs if r["kind"] == "predict" for e in r["model_events"] if e["ev"] == "bad")
     # ---------------------------------------------------------------- 4. conformance (drift is not a verdict)
@@ -368,7 +411,39 @@ def run(ctx, only_scripts=None):
     return vlib.finish(ctx, violations, coverage, ASSUME)
 
 
-def real_sinks(ctx, tier):
+def config_lengths(ctx, tier):
+    """C03's configuration quantifier at the daemon's front door: ParseConfig on generated config.toml files."""
+    import subprocess, fam_e2e
+    rng = ctx.rng
+    combos = [(0, 0, 0), (0, 0, 1), (1, 1, 0), (2, 2, 1), (0, 1, 0), (0, 5, 2), (10, 10, 5), (10, 600, 5), (3, 4, 0), (600, 600, 0)]
+    for _ in range(10 if tier == "quick" else 200):
+        mn = rng.choice([0, 1, 2, 5, 10, 59, 60, 300]); mx = mn + rng.choice([0, 0, 1, 2, 10, 590])
+        combos.append((mn, mx, rng.choice([0, 1, 2, 5, 30])))
+    cfgs = [dict(Min=a, Max=b, Preview=p, Toml=fam_e2e.toml(dict(min=a, max=b, preview=p, const=rng.random() < 0.5, throttle=False,
+                                                               motion=dict(fam_e2e.FIXED_MOTION)))) for (a, b, p) in combos]
+    binp = ctx.go_test_build("./cmd/thermal-recorder", "tr.test")
+    inp, outp = ctx.path("run", "cfglen.json"), ctx.path("run", "cfglen.ndjson")
+    json.dump(dict(configs=cfgs), open(inp, "w"))
+    r = subprocess.run([binp, "-test.run", "^TestVerifConfigLengths$"], env=dict(os.environ, VERIF_SCRIPT=inp, VERIF_OUT=outp),
+                       capture_output=True, text=True, timeout=600)
+    if r.returncode != 0 or not os.path.exists(outp):
+        raise vlib.Infra("config driver failed: " + (r.stdout + r.stderr)[-2500:])
+    events = vlib.read_ndjson(outp)
+    if len(events) != len(cfgs):
+        raise vlib.Infra("config driver: %d results for %d configs" % (len(events), len(cfgs)))
+    viol, nev = judge(ctx, outp, "cfglenmon")
+    out, seen = [], set()
+    for (line, tags) in viol:
+        for tg in tags:
+            if tg not in seen:
+                seen.add(tg)
+                e = events[line - 1]
+                rp = vlib.save_replay(ctx, tg.replace(":", "_"), dict(family="proc", property="C03", clause=tg, config=cfgs[e["i"]], observed=e))
+                out.append(dict(key=tg, replay=rp, what=json.dumps(e)[:300]))
+    return out, dict(configs=len(cfgs), min_equals_max=sum(1 for (a, b, p) in combos if a == b))
+
+
+def real_sinks(ctx, tier, prop="C12"):
     """C12 with REAL CPTVFileRecorders on the motion, continuous and test sinks; start / rename / pruning failures are
     provoked through the file system (the output directory is renamed away and back).  Ends with a long quiet stretch
     and one isolated motion frame whose recording must be exactly what C02/C03 demand."""
@@ -382,7 +457,12 @@ def real_sinks(ctx, tier):
         steps = []
         for k in range(rng.randint(30, 90)):
             r = rng.random()
-            if r < 0.06:
+            if prop == "C13" and r < 0.05:
+                # a bad frame while storage fails (the files in progress cannot be finished), then ordinary frames
+                steps += [dict(a="breakdir"), dict(a="bad"), dict(a="frame", motion=rng.random() < 0.5)]
+                if rng.random() < 0.5:
+                    steps.append(dict(a="fixdir"))
+            elif r < 0.06:
                 steps.append(dict(a="breakdir"))
             elif r < 0.12:
                 steps.append(dict(a="fixdir"))
@@ -402,7 +482,8 @@ def real_sinks(ctx, tier):
         nframes = sum(1 for s in steps if s["a"] == "frame")
         blip = nframes                                                     # the frame that completes the run
         steps += [dict(a="frame", motion=False) for _ in range(MinF + 3)]
-        scripts.append(dict(Fps=fps, Preview=preview, Trig=trig, Min=mn, Max=mx, const=rng.random() < 0.6, steps=steps, blip=blip))
+        scripts.append(dict(Fps=fps, Preview=preview, Trig=trig, Min=mn, Max=mx, const=rng.random() < (0.85 if prop == "C13" else 0.6),
+                            steps=steps, blip=blip))
     binp = ctx.go_test_build("./cmd/thermal-recorder", "tr.test")
     inp, outp = ctx.path("run", "realsinks.json"), ctx.path("run", "realsinks.ndjson")
     json.dump(dict(scripts=scripts), open(inp, "w"))
@@ -426,13 +507,14 @@ def real_sinks(ctx, tier):
                 continue
             seen.add(tg)
             e = events[line - 1]
-            rp = vlib.save_replay(ctx, tg.replace(":", "_"), dict(family="proc", property="C12", clause=tg, script=scripts[e["script"]], observed=e))
+            rp = vlib.save_replay(ctx, tg.replace(":", "_"), dict(family="proc", property=prop, clause=tg, script=scripts[e["script"]], observed=e))
             out.append(dict(key=tg, replay=rp, what=json.dumps(e)[:300]))
+    out = [v for v in out if v["key"].startswith(prop + ":")]
     return out, dict(scripts=len(scripts), panics=sum(1 for e in events if e["panic"]),
                      final_recordings_checked=sum(1 for e in events if e["last"]))
 
 
-def raw_frames(ctx, tier):
+def raw_frames(ctx, tier, prop="C13"):
     """C13: raw Lepton / Boson frames (zero pixels at every position class incl. the border/interior boundary of
     non-square frames, arbitrary pixel values and telemetry words) through the parser the daemon selects; judged by
     RawFrame.tla on the bytes."""
@@ -490,7 +572,7 @@ def raw_frames(ctx, tier):
                 continue
             seen.add(tg)
             e = events[line - 1]
-            rp = vlib.save_replay(ctx, tg.replace(":", "_"), dict(family="proc", property="C13", clause=tg,
+            rp = vlib.save_replay(ctx, tg.replace(":", "_"), dict(family="proc", property=prop, clause=tg,
                                   script=scripts[e.get("script", 0)], observed={k: e[k] for k in e if k != "bytes"}))
             out.append(dict(key=tg, replay=rp, what="fmt=%s %dx%d edge %d" % (e.get("fmt"), e.get("w", 0), e.get("h", 0), e.get("edge", 0))))
     raws = [e for e in events if e["ev"] == "raw"]
